@@ -11,6 +11,8 @@ checks = {
          "corpus grammars only; reference CNF/CYK is mine and self-tested against a direct derivation search; token kinds range over the item's terminals"),
  "C02": ("the generated PushRune/Reset/Token of each greedy lexer item driven by the real simplelexer (ReadToken/consume, bytes.Reader.ReadRune) over every input of up to 3 (thorough 5) arbitrary bytes, valid and invalid UTF-8; each recorded stretch is validated against a Glushkov position automaton built by my own parser of the documented lexer syntax: every consumed character keeps the run viable, the run cannot be extended, the effect is that of the earliest declared rule matching exactly that run, token type/text/position as defined. The engine's utf8.DecodeRune model is itself proved equal to the real function by the solver on every run.",
          "rule sets are an enumerated corpus (15 items); Go's UTF-8 decoder shared by reference and implementation; comparison ends at the first ERROR token"),
+ "C06": ("reduced form: six Go type layouts on which lox must succeed by Go assignability (identical types, interface-typed parameters, named slices for list terms, generic instantiations, types imported from other packages, aliases) over one grammar with A*, a rule, an optional rule, @list(...)? and a token: the generated files must type-check with the package, and for every token sequence up to n=6 (thorough 8) every parameter of the start action holds exactly the value produced for its term (all elements of both lists in input order, the rule values, the zero value for the absent optional, the END token).",
+         "the verdict clause 'lox succeeds exactly when ...' for missing, ambiguous or orphaned methods is behind go list / go/types and not decided; _cast's type assertion is evaluated with go/types identity/implements as Go does"),
  "C07": ("as C02 on 11 mode/action items (nested, recursive, re-entering the default mode; every written order of @emit/@discard/@push_mode/@pop_mode): the reference follows the written actions on an explicit mode stack and each stretch is validated against the automaton of the reference's current mode; accumulated fragment text must start the next emitted token, and may not be dropped at EOF.",
          "mode graphs and action orders are enumerated; pop on an empty stack ends the comparison (undocumented)"),
  "C08": ("as C02 on 10 items of the documented non-greedy shape (prefix, *? or +? over a one-character expression, literal terminator; self-overlapping terminators, bodies containing terminator characters): a stretch must end at the first position where the non-greedy rule is completely matched and not before the run stops being extendable otherwise. Arbitrary bytes up to 2 (4), ASCII bytes up to 5 (7). The greedy-overlap item reports the known per-state finding.",
@@ -46,7 +48,7 @@ checks = {
 not_applicable = {
  "C14": "byte-for-byte comparison of one concrete computation with files on disk; no input a solver could range over (DESIGN.md section 5)",
 }
-pending = ["C06"]
+pending = []
 
 def main():
     m = {
